@@ -563,6 +563,10 @@ impl Context {
                     true,
                 )
             }
+            (CodegenTy::Str, CodegenTy::String) => {
+                let stream = self.cur_related_item_path(did);
+                (format!("{stream}.to_string()").into(), false)
+            }
             (
                 CodegenTy::Adt(AdtDef {
                     did: _,
